@@ -13,7 +13,8 @@ EXPLANATION = (
     "conflicting record (name_change / hostname_change), records the change, re-probes with a timer, and "
     "handle_expired_probes emits NameChange and moves records to active; (d) F4 rename taint over every record "
     "builder: names that can be renamed pass DnsRegistry::resolve_name (or set_new_name from name_changes).  Decides "
-    "these mechanisms, not convergence of several daemons over schedules.")
+    "these mechanisms, not convergence of several daemons over schedules."
+    " (e) The answering service is selected by its resolved (post-rename) name.")
 UNDECIDED = ["convergence of two or three daemons (global liveness over schedules)", "text of the generated names (unit-tested string functions)",
              "opposite verdicts on both sides as a value-level property of cmp"]
 
